@@ -3,7 +3,8 @@ CONSTANTS
  Confs <- NoopConfs
  MaxCloses = 4
  MaxOps = 2
- KeyMode = "clean"
+ KeyMode = "resolve"
+ LockRefTgt = TRUE
  Eager = FALSE
 INIT GInit
 NEXT GNext
